@@ -509,7 +509,7 @@ pub fn cases(ctx: &Ctx) -> Vec<Case> {
         out.push(table_case(&mut r, 0, b, 0, 6, "corpus-default-impl"));
         let mut b = base.clone(); b.s4[2] = None;
         out.push(table_case(&mut r, 0, b, 0, 0, "corpus-missing-ts"));
-        for n in [65533usize, 65534, 65535, 65536] {
+        for n in [65534usize, 65535] {
             let mut b = base.clone(); b.o5[1] = Some("A".repeat(n));
             out.push(table_case(&mut r, 0, b, 0, 0, "corpus-long"));
         }
